@@ -6,6 +6,7 @@ types: one letter per key column, `i` = integer column (discrete: open bounds ar
 cond (prefix): `A col op const` | `O` | `& x y` | `| x y`.
 -/
 import OG.C20.Model
+import OG.C20.Skip
 
 namespace OG.C20
 
@@ -59,6 +60,175 @@ def parseMark (tys : List Bool) (s : String) : Option (List (Ext DK)) :=
 def showRanges (rs : List (Nat × Nat)) : String :=
   rs.foldl (fun acc (s, e) => acc ++ " " ++ toString s ++ "-" ++ toString e) "ranges"
 
+/-! ### skip indexes (OG.C20.Skip): ops `skip skipset minmax mmx isex pmatch bloom` -/
+namespace SkipDrv
+open OG.C20.Skip
+
+def hexVal (c : Char) : Option Nat :=
+  if '0' ≤ c && c ≤ '9' then some (c.toNat - '0'.toNat)
+  else if 'a' ≤ c && c ≤ 'f' then some (c.toNat - 'a'.toNat + 10)
+  else none
+
+def hexBytesAux : List Char → Option (List Nat)
+  | [] => some []
+  | a :: b :: rest => do
+    let x ← hexVal a
+    let y ← hexVal b
+    let r ← hexBytesAux rest
+    some ((x * 16 + y) :: r)
+  | _ => none
+
+/-- `-` = empty string. -/
+def hexBytes (s : String) : Option (List Nat) := if s == "-" then some [] else hexBytesAux s.toList
+
+def parseRanges (s : String) : Option (List (Nat × Nat)) :=
+  if s == "-" then some []
+  else (s.splitOn ",").mapM fun p =>
+    match p.splitOn "-" with
+    | [a, b] => do some ((← a.toNat?), (← b.toNat?))
+    | _ => none
+
+def scriptReader (ans : List Char) : Reader := fun j =>
+  match ans[j]? with
+  | some '1' => some true
+  | some '0' => some false
+  | _ => none
+
+def showScan : Option (List (Nat × Nat)) → String
+  | some rs => showRanges rs
+  | none => "err"
+
+def parseBOp : String → Option BOp
+  | "and" => some .and | "or" => some .or | "cmp" => some .cmp | "cmpns" => some .cmpns | "bad" => some .bad
+  | _ => none
+
+partial def parseSExpr : List String → Option (SExpr Nat × List String)
+  | "V" :: n :: rest => do some (.var (← n.toNat?), rest)
+  | "L" :: n :: rest => do some (.lit (← n.toNat?), rest)
+  | "P" :: rest => do
+    let (e, rest) ← parseSExpr rest
+    some (.paren e, rest)
+  | "B" :: op :: rest => do
+    let op ← parseBOp op
+    let (l, rest) ← parseSExpr rest
+    let (r, rest) ← parseSExpr rest
+    some (.bin op l r, rest)
+  | _ => none
+
+def parseCmpK : String → Option CmpK
+  | "mp" => some .mp | "eq" => some .eq | "neq" => some .neq | "lt" => some .lt | "gt" => some .gt
+  | "lte" => some .lte | "gte" => some .gte | _ => none
+
+def parseField : String → Option Nat
+  | "x" => some fieldOther
+  | "L" => some fieldLog
+  | s => s.toNat?
+
+partial def parseBCond : List String → Option (BCond × List String)
+  | "A" :: f :: op :: v :: rest => do
+    let f ← parseField f
+    let op ← parseCmpK op
+    let v ← hexBytes v
+    some (.bin .cmp (.var f) (.lit ⟨op, v⟩), rest)
+  | "P" :: rest => do
+    let (e, rest) ← parseBCond rest
+    some (.paren e, rest)
+  | "&" :: rest => do
+    let (l, rest) ← parseBCond rest
+    let (r, rest) ← parseBCond rest
+    some (.bin .and l r, rest)
+  | "|" :: rest => do
+    let (l, rest) ← parseBCond rest
+    let (r, rest) ← parseBCond rest
+    some (.bin .or l r, rest)
+  | _ => none
+
+def parseCell (s : String) : Option (Option (List Nat)) :=
+  if s == "N" then some none else (hexBytes s).map some
+
+def parseSeg (s : String) : Option Seg :=
+  (s.splitOn ",").mapM fun row => (row.splitOn ":").mapM parseCell
+
+def showIsExist : Option (Option Bool) → String
+  | none => "err cond"
+  | some none => "err exist"
+  | some (some b) => toString b
+
+def stepSkip : List String → Option String
+  | ["skip", rpf, minRows, ans, rgs] => do
+    let rpf ← rpf.toNat?
+    let minRows ← minRows.toNat?
+    let rgs ← parseRanges rgs
+    if rpf == 0 then none
+    else some (showScan (skipScan (minMarks rpf minRows) (scriptReader ans.toList) rgs))
+  | ["skipset", rpf, minRows, _nfrag, rgs] => do
+    let rpf ← rpf.toNat?
+    let minRows ← minRows.toNat?
+    let rgs ← parseRanges rgs
+    if rpf == 0 then none
+    else
+      match skipScan (minMarks rpf minRows) setMayBeInFragment rgs with
+      | some rs => some ("readers 1 " ++ showRanges rs)
+      | none => some "err scan"
+  | ["minmax", "reinit"] =>
+    -- `MinMaxIndexReader.init` calls `r.ReadFunc`, which nothing outside the tests assigns
+    some "err panic"
+  | "mmx" :: rec :: cond => do
+    let rec ← (rec.splitOn ",").mapM fun s => s.toInt?.map fun v => (⟨true, v⟩ : DK)
+    let (c, rest) ← parseCond [true] cond
+    if !rest.isEmpty then none
+    else
+      let fs := List.range (rec.length - 1)
+      some (fs.foldl (fun acc f =>
+        match minMaxMayBe dkDisc c rec f with
+        | some true => acc ++ "1"
+        | some false => acc ++ "0"
+        | none => acc ++ "e") "may ")
+  | "isex" :: mask :: ans :: tree => do
+    let (e, rest) ← parseSExpr tree
+    if !rest.isEmpty then none
+    else
+      let m := mask.toList
+      let a := ans.toList
+      some (showIsExist (isExist (fun n => m[n]? == some '1') (fun _ id => scriptReader a id) e))
+  | ["pmatch", c, p] => do
+    let c ← hexBytes c
+    let p ← hexBytes p
+    some (toString (phraseMatch contentSplit c p))
+  | "bloom" :: kind :: split :: rpf :: minRows :: rgs :: nIdx :: segs :: cond => do
+    let rpf ← rpf.toNat?
+    let minRows ← minRows.toNat?
+    let rgs ← parseRanges rgs
+    let nIdx ← nIdx.toNat?
+    let segs ← (segs.splitOn "|").mapM parseSeg
+    let (c, rest) ← parseBCond cond
+    let wsp ← (match split with | "c" => some contentSplit | "e" => some noSplit | _ => none)
+    if !rest.isEmpty || rpf == 0 then none
+    else
+      let (inIdx, mayBe) ← (match kind with
+        | "bf" => some ((fun n => n == 0), bfMayBe wsp posV3 c)
+        | "ft" => some ((fun n => n < nIdx || n == fieldLog), ftMayBe wsp posV3 nIdx (List.range (nIdx + 1)) c)
+        | _ => none : Option ((Nat → Bool) × (Seg → Option (Option Bool))))
+      -- a phrase that ends inside a multi-byte sequence panics in the query tokenizer:
+      -- the full-text reader tokenizes every element in ReInit, the plain one when it is asked
+      let ftPanics := kind == "ft" && (atomsOf c).any fun a => inIdx a.1 && (readerLookups contentSplit a.2.v).isNone
+      if !hasReader inIdx c then some (showRanges rgs)
+      else if ftPanics then some "err panic"
+      else
+        match mayBe [] with
+        | none => some "err create"
+        | some _ =>
+          let rd : Reader := fun j =>
+            match segs[j]? with
+            | some seg => (match mayBe seg with | some (some b) => some b | _ => none)
+            | none => none
+          match skipScan (minMarks rpf minRows) rd rgs with
+          | some rs => some (showRanges rs)
+          | none => some "err panic"
+  | _ => none
+
+end SkipDrv
+
 def step (line : String) : String :=
   match (line.trimAscii.toString.splitOn " ").filter (· ≠ "") with
   | "scan" :: fixed :: types :: coarse :: minMarks :: hasKey :: marks :: cond =>
@@ -67,7 +237,7 @@ def step (line : String) : String :=
     | some co, some mm, some (c, []), some ms =>
       showRanges (scan (fixed == "1") dkDisc c (hasKey == "1") (tys.map fun _ => false) ms co mm)
     | _, _, _, _ => "bad-op"
-  | _ => "bad-op"
+  | toks => (SkipDrv.stepSkip toks).getD "bad-op"
 
 partial def loop (h : IO.FS.Stream) (out : IO.FS.Stream) : IO Unit := do
   let line ← h.getLine
